@@ -47,6 +47,16 @@ pub fn pool() -> &'static [PoolFont] {
             "NotoSansJP-VF.subset.otf",
             "material_icons_subset.ttf",
             "simple_glyf.ttf",
+            // real-world fonts (klippa test data): real hinting programs, CFF and CFF2 with real charstrings
+            "Roboto-Regular.ttf",
+            "Ubuntu-Regular.ttf",
+            "Comfortaa-Regular-new.ttf",
+            "IndicTestHowrah-Regular.ttf",
+            "SourceSansPro-Regular.otf",
+            "AdobeVFPrototype.otf",
+            "Foldit.ttf",
+            "NanumMyeongjo-Regular-subset.ttf",
+            "SreeKrushnadevaraya-Regular.ttf",
         ] {
             let Some(f) = corpus::by_name(name) else { continue };
             let Ok(fr) = FontRef::new(f.data) else { continue };
